@@ -97,10 +97,10 @@ InitialLoadOk == steps = 0 => PostClause(NoCtx, 0, files, hdirs, cfg, "", ctx, T
 \* UntouchedContextsKeepState, stated on its own: a context outside the documented discard set keeps its
 \* whole record (instance = variables, triggers, tasks; load counter)
 \* (= clause "untouched-touched" of PostClause, which Reload evaluates on the step:
-\*   \A c \in LoadedIn(pre) \ MustDiscard(pre, ...) : SameButStart(post[c], pre[c]) )
+\*   \A c \in LoadedIn(pre) \ DiscardSets(pre, ...).may : SameButStart(post[c], pre[c]) )
 UntouchedContextsKeepState == lastPost # "untouched-touched"
 \* the changed set is discarded: nothing that the documentation says is discarded survives
-\* (= clause "changed-not-discarded":  MustDiscard(pre, ...) \subseteq Discarded(pre, post) )
+\* (= clause "changed-not-discarded":  DiscardSets(pre, ...).must \subseteq Discarded(pre, post) )
 ChangedAreDiscarded == lastPost # "changed-not-discarded"
 
 \* witnesses (expected to be VIOLATED: the antecedents of the clauses are exercised)
@@ -118,6 +118,16 @@ F_ChangedNotDiscarded == lastPost # "changed-not-discarded"
 F_OrphanLoaded        == lastPost # "orphan-loaded"
 F_NotStarted          == lastPost # "not-started"
 F_NeededNotCurrent    == lastPost # "needed-not-current"
+
+\* all witnesses in one run (workers = 1): registers set by the invariant WitTrack, printed by the post-condition
+WitNames == << "W_NoImporterDiscard", "W_NoWidening", "W_NoUntouched", "W_NoLazyReload", "W_NoFailedLoad", "W_NoNamed",
+               "F_ChangedNotDiscarded", "F_OrphanLoaded", "F_NotStarted", "F_NeededNotCurrent" >>
+WitVal(k) == CASE k = 1 -> ~W_NoImporterDiscard [] k = 2 -> ~W_NoWidening [] k = 3 -> ~W_NoUntouched [] k = 4 -> ~W_NoLazyReload
+               [] k = 5 -> ~W_NoFailedLoad [] k = 6 -> ~W_NoNamed [] k = 7 -> ~F_ChangedNotDiscarded [] k = 8 -> ~F_OrphanLoaded
+               [] k = 9 -> ~F_NotStarted [] k = 10 -> ~F_NeededNotCurrent
+ASSUME \A k \in 1..Len(WitNames) : TLCSet(k, FALSE)
+WitTrack  == \A k \in 1..Len(WitNames) : (lastAct.a = "reload" /\ WitVal(k)) => TLCSet(k, TRUE)
+WitReport == PrintT("INFO " \o ToJson([seen |-> { WitNames[k] : k \in { j \in 1..Len(WitNames) : TLCGet(j) } }]))
 
 Short(C) == { <<c, C[c].path, C[c].gen, C[c].inst, C[c].started>> : c \in LoadedIn(C) }
 Alias == [act |-> lastAct, cfg |-> cfg, hdirs |-> hdirs, post |-> lastPost,
